@@ -70,6 +70,7 @@ void caller(int tid, const hu::Plan* plan, bool reuse) {
 
 struct H30 : hu::Harness {
   const char* property() const override { return "C30"; }
+  bool first_use_run() override { return true; }   // the allocation index of a run must not depend on one-off initialisations of the process
   hu::Plan generate(uint64_t seed, int tier, vsim::Config& cfg) override {
     hu::Rng r(seed); hu::Plan p;
     long nt = tier >= 1 ? (r.chance(1, 3) ? r.range(5, 16) : r.range(1, 4)) : (r.chance(1, 3) ? 1 : r.range(2, 4));
@@ -86,6 +87,7 @@ struct H30 : hu::Harness {
     for (size_t i = p.ops.size(); i > 1; --i) { size_t j = size_t(r.range(0, long(i) - 1)); if (p.ops[i - 1][0] != p.ops[j][0]) std::swap(p.ops[i - 1], p.ops[j]); }
     cfg.strategy = int(r.range(0, 3)); cfg.sticky_num = int(r.range(1, 3)); cfg.starve_thread = int(r.range(0, nt - 1));
     cfg.sig_linux_bias = int(bias);
+    if (r.chance(1, 4)) { static const int rates[] = {2, 5, 11, 23}; cfg.alloc_rate = rates[r.range(0, 3)]; cfg.alloc_phase = int(r.range(0, 22)); }   // a share of the runs: allocations of the code under test as scheduling points
     cfg.pid_recycle = r.chance(1, 3) ? 1 : 0;   // history dimension: the kernel hands out the pid of a reaped child again
     cfg.max_steps = 4000 + 3000 * long(p.ops.size());
     if (r.chance(1, 5)) { long n = r.range(1, 2); for (long k = 0; k < n; ++k) p.faults.push_back({vsim::F_STRAY_SIGCHLD, r.range(1, 60 * long(p.ops.size())), 0}); }
